@@ -42,6 +42,16 @@ func DecodeBody(body hcl.Body, bodySchema *schema.BodySchema) BodyContent {
 	// and blocks are otherwise ambiguous
 	if bodySchema != nil {
 		hclSchema := bodySchema.ToHCLSchema()
+		if bodySchema.Extensions != nil {
+			// the count / for_each extension attributes are not part of
+			// Attributes; without naming them here a JSON body would drop them
+			if bodySchema.Extensions.Count {
+				hclSchema.Attributes = append(hclSchema.Attributes, hcl.AttributeSchema{Name: "count"})
+			}
+			if bodySchema.Extensions.ForEach {
+				hclSchema.Attributes = append(hclSchema.Attributes, hcl.AttributeSchema{Name: "for_each"})
+			}
+		}
 		bContent, remainingBody, _ := body.PartialContent(hclSchema)
 
 		content.Attributes = bContent.Attributes
